@@ -148,6 +148,12 @@ def _violate(r, desc, v, target, info=None):
         new = _violate(r, desc, v, [0], None)
         info.append((k, new))
         return new
+    if k == 'INTEGER' and 'refine_values' in con and hit and r.random() < 0.6:
+        # inside the inherited range, outside the refinement
+        lo, hi = con['range']
+        inside = [x for x in (lo + 1, hi - 1, (lo + hi) // 2 + 1, lo + 2) if lo <= x <= hi and x not in con['refine_values']]
+        if inside:
+            return r.choice(inside)
     if k == 'INTEGER' and 'range' in con and hit:
         lo, hi = con['range']
         return r.choice([lo - 1, hi + 1, lo - 129, lo - 70000, hi + 2 ** 40, -2 ** 63])
